@@ -43,6 +43,7 @@ func seqJobs(r *rand.Rand, all map[string]rcorpus.Comp, nRandom int) []rcorpus.J
 		jobs = append(jobs, rcorpus.Job{Op: "seq", Tag: fmt.Sprintf("seq%03d-%s", len(jobs), name), Comps: comps, Writers: writers, Steps: steps})
 	}
 	R := func(w, c int) rcorpus.Step { return rcorpus.Step{W: w, C: c} }
+	H := func(w, c int) rcorpus.Step { return rcorpus.Step{W: w, C: c, Hold: true} } // caller does not flush yet
 	GC := rcorpus.Step{GC: true}
 	// F1: a fresh pooled Buffer's first target is the caller's bufio.Writer; then the pooled
 	// Buffer is reused for other sinks and the bufio.Writer is rendered into again
@@ -50,6 +51,11 @@ func seqJobs(r *rand.Rand, all map[string]rcorpus.Comp, nRandom int) []rcorpus.J
 		add("fresh-"+bk, []string{bk, "fw", bk, "builder", "bytesbuf"}, []rcorpus.Step{
 			GC, R(0, 0), R(1, 1), R(0, 2), R(1, 0), R(0, 1), R(3, 2), R(0, 10),
 			GC, R(2, 3), R(4, 4), R(2, 5), R(0, 6), R(2, 7), R(1, 10), R(0, 0), R(2, 0), R(4, 11)})
+		// head and body rendered separately into one bufio.Writer, ONE flush at the end,
+		// other writers served in between
+		add("held-"+bk, []string{bk, "fw", bk, "bytesbuf"}, []rcorpus.Step{
+			GC, H(0, 0), H(0, 1), R(0, 2), H(0, 3), R(1, 4), H(0, 5), R(3, 6), R(0, 7),
+			GC, H(2, 0), R(1, 1), H(0, 2), R(3, 3), H(2, 4), R(1, 10), R(2, 5), R(0, 6)})
 	}
 	// F2: fail -> succeed -> succeed on the SAME writer object, every fault-capable kind
 	for _, wk := range rcorpus.WriterKinds {
@@ -86,6 +92,9 @@ func seqJobs(r *rand.Rand, all map[string]rcorpus.Comp, nRandom int) []rcorpus.J
 			if r.Intn(5) != 0 {
 				st.C = r.Intn(small)
 			}
+			if strings.HasPrefix(writers[st.W], "bufio") && r.Intn(3) == 0 {
+				st.Hold = true
+			}
 			if rcorpus.FaultCapable(writers[st.W]) && r.Intn(3) == 0 {
 				st.Kind = []string{"hard", "short", "zero"}[r.Intn(3)]
 				st.K = faultKs[r.Intn(len(faultKs))]
@@ -101,6 +110,7 @@ func seqJobs(r *rand.Rand, all map[string]rcorpus.Comp, nRandom int) []rcorpus.J
 type seqState struct {
 	job    *rcorpus.Job
 	exp    [][]byte // expected stream of every writer object's sink
+	pend   [][]byte // caller-owned bufio.Writer: rendered but not yet flushed by the caller (a prefix may already be in the sink)
 	broken bool     // a discrepancy was reported; later steps of this sequence are not judged
 	next   int
 }
@@ -145,7 +155,13 @@ func (st *seqState) step(ev *rcorpus.Event, refs map[string]*rcorpus.Ref) []find
 			if o.Err != nil {
 				add("seq-err", "%s returned %v", what, errText(o.Err))
 			}
-			st.exp[s.W] = append(st.exp[s.W], ref.D...)
+			if s.Hold {
+				what += ", not flushed by the caller yet"
+				st.pend[s.W] = append(st.pend[s.W], ref.D...)
+			} else {
+				st.exp[s.W] = append(append(st.exp[s.W], st.pend[s.W]...), ref.D...)
+				st.pend[s.W] = nil
+			}
 		} else {
 			m := ev.Sinks[s.W].N - len(st.exp[s.W])
 			if m < 0 || m > ref.L() {
@@ -167,6 +183,16 @@ func (st *seqState) step(ev *rcorpus.Event, refs map[string]*rcorpus.Ref) []find
 	}
 	// every sink holds exactly what was rendered into it, nothing else
 	for w, sk := range ev.Sinks {
+		if len(st.pend[w]) > 0 {
+			// unflushed: the sink holds everything flushed so far plus some prefix of the pending bytes
+			all := append(append([]byte(nil), st.exp[w]...), st.pend[w]...)
+			if sk.N < len(st.exp[w]) || sk.N > len(all) || sk.H != rcorpus.Hash(all[:sk.N]) {
+				add("seq-sink", "after %s the sink of writer #%d (%s) holds %d bytes (hash %s), which is not the %d flushed bytes plus a prefix of the %d pending ones",
+					what, w, st.job.Writers[w], sk.N, sk.H, len(st.exp[w]), len(st.pend[w]))
+				break
+			}
+			continue
+		}
 		if sk.N != len(st.exp[w]) || sk.H != rcorpus.Hash(st.exp[w]) {
 			add("seq-sink", "after %s the sink of writer #%d (%s) holds %d bytes (hash %s); the documents rendered into it so far are %d bytes (hash %s)",
 				what, w, st.job.Writers[w], sk.N, sk.H, len(st.exp[w]), rcorpus.Hash(st.exp[w]))
@@ -188,7 +214,7 @@ func runSeqProc(c *core.Ctx, b *rcorpus.Built, bufsize int, jobs []rcorpus.Job) 
 	states := map[string]*seqState{}
 	for i := range jobs {
 		j := &jobs[i]
-		states[j.Tag] = &seqState{job: j, exp: make([][]byte, len(j.Writers))}
+		states[j.Tag] = &seqState{job: j, exp: make([][]byte, len(j.Writers)), pend: make([][]byte, len(j.Writers))}
 		res.seqs++
 		for _, k := range j.Writers {
 			res.seqKinds[k]++
